@@ -123,6 +123,14 @@ func openStorage(dir string, opt Options) (*storage, error) {
 	if s.log, err = log.Open(filepath.Join(dir, "log"), 0700, logOpt); err != nil {
 		return nil, err
 	}
+	if s.log.LastIndex() < s.snaps.index {
+		// crash while installing a snapshot: snapshot is stored but log
+		// is not yet reset to it. the log ends before the snapshot, so
+		// all its entries are covered by the snapshot
+		if err = s.log.Reset(s.snaps.index); err != nil {
+			return nil, opError(err, "Log.Reset(%d)", s.snaps.index)
+		}
+	}
 	if s.log.Count() > 0 {
 		data, err := s.log.Get(s.log.LastIndex())
 		if err != nil {
